@@ -18,6 +18,7 @@ import multiprocessing
 from ..core import MachineryError
 from ..runner import main
 from .. import syscheck as sc
+from . import c08
 from .. import sysfam, statedrv
 from .. import tracecheck as tc
 
@@ -128,7 +129,8 @@ def run(ctx):
         cases, _ = sc.slice_cases(cases, limit, key=name)
         fl = ["oidci/oid", "pathci/oid"] if uni == "case" else flavors
         allc = [dict(c, project_state=True) for c in sc.with_flavors(cases, fl)]
-        sc.run_family(ctx, allc, "engine-reached states %s" % name, CLAUSES)
+        sc.run_family(ctx, allc, "engine-reached states %s" % name, CLAUSES,
+                      extra_sig=lambda case, trace, line: {"idless_pending": c08.idless_pending(trace[line - 1])})
 
 
 def replay(ctx, rep):
@@ -136,7 +138,7 @@ def replay(ctx, rep):
     if "state_case" in case:
         run_state_family(ctx, [case["state_case"]], "replay")
     else:
-        sc.replay_case(ctx, rep, CLAUSES)
+        sc.replay_case(ctx, rep, CLAUSES, extra_sig=lambda case, trace, line: {"idless_pending": c08.idless_pending(trace[line - 1])})
 
 
 if __name__ == "__main__":
